@@ -12,6 +12,7 @@ import (
 
 	"github.com/hashicorp/nodeenrollment"
 	"github.com/hashicorp/nodeenrollment/rotation"
+	nodetls "github.com/hashicorp/nodeenrollment/tls"
 	"github.com/hashicorp/nodeenrollment/types"
 	"google.golang.org/protobuf/proto"
 	"google.golang.org/protobuf/types/known/structpb"
@@ -65,7 +66,18 @@ func propC16(r *kernel.Run) {
 	if _, err := rotation.RotateRootCertificates(srv.Ctx, srv.Storage, srv.Opts()...); err != nil {
 		r.HarnessErr("roots: %v", err)
 	}
-	w := NewWire(r, srv, nil, srv.Opts())
+	// the application's listener options may themselves carry WithState / WithExtraAlpnProtos (they are handed to the
+	// fetch flow, where WithState is the state recorded on authorization); per-connection metadata must not pick them up
+	lopts := srv.Opts()
+	if tp.Draw(3) == 0 {
+		lopts = append(lopts, nodeenrollment.WithState(mkStruct(r, 2)))
+		r.Count("cfg.listener_options_with_state", 1)
+	}
+	if tp.Draw(4) == 0 {
+		lopts = append(lopts, nodeenrollment.WithExtraAlpnProtos([]string{"listener-level-proto"}))
+		r.Count("cfg.listener_options_with_extra_protos", 1)
+	}
+	w := NewWire(r, srv, nil, lopts)
 	w.Net.Frag = tp.Draw(3) == 0
 	w.StartAcceptor("acceptor")
 	nodeW := NewWorld(r, "node", "inmem", tp.Draw(2) == 0, false)
@@ -93,6 +105,10 @@ func propC16(r *kernel.Run) {
 			st = bigStruct(r, tp.Range(1000, 12000)) // stays below 100 ALPN chunks (larger payloads are C07's honest-configuration clause)
 		}
 		extras := drawExtras(tp)
+		if tp.Draw(5) == 0 {
+			c16CustomConfig(r, tp, w, creds, extras)
+			continue
+		}
 		opts := []nodeenrollment.Option{}
 		if st != nil {
 			opts = append(opts, nodeenrollment.WithState(st))
@@ -165,6 +181,46 @@ func propC16(r *kernel.Run) {
 			r.SetSample(map[string]any{"client_state": stateKind, "extra_alpn": extras, "client_hello_alpn_entries": len(res.hello), "client_next_protos": truncList(conn.conn.ClientNextProtos())})
 		}
 	}
+}
+
+// c16CustomConfig: an application that takes the client configurations from tls.ClientConfigs (documented as
+// modifiable) and appends its own protocols AFTER the certificate-preference entry.
+func c16CustomConfig(r *kernel.Run, tp *kernel.Tape, w *Wire, creds *types.NodeCredentials, extras []string) {
+	cfgs, err := nodetls.ClientConfigs(contextBG, creds, nodeenrollment.WithExtraAlpnProtos(extras), nodeenrollment.WithServerName("server"))
+	if err != nil || len(cfgs) == 0 {
+		r.Violate("honest-connects", "no-client-config", "%v", err)
+	}
+	cfg := cfgs[0]
+	tail := []string{"app-proto-after-selector", "h2", "app-proto-after-selector"}[:tp.Range(1, 3)]
+	cfg.NextProtos = append(append([]string{}, cfg.NextProtos...), tail...)
+	res := w.rawClient(fmt.Sprintf("custom%d", r.NextID()), cfg)
+	w.Quiesce()
+	acc := w.Take()
+	r.Count("cases", 1)
+	r.Count("ops.custom_config_dial", 1)
+	if res.err != nil {
+		r.Violate("honest-connects", "honest-dial-failed", "client built from ClientConfigs with appended protocols: %v", shortErr(res.err))
+	}
+	want := withoutCertPref(res.hello)
+	for _, a := range acc {
+		if a.panicMsg != "" {
+			r.Violate("no-panic", "accept-panic/"+a.panicSite, "%s", a.panicMsg)
+		}
+		if a.err == nil && a.conn != nil && strings.HasPrefix(a.negotiated, nodeenrollment.AuthenticateNodeNextProtoV1Prefix) {
+			if got := a.conn.ClientNextProtos(); !equalStrings(got, want) {
+				r.Violate("client-protos", "protocol-list-differs/"+protoDiffClass(got, want), "client offering protocols after the certificate preference: ClientNextProtos()=%q, offered (minus preference) %q", truncList(got), truncList(want))
+			}
+		}
+		if a.raw != nil {
+			a.raw.Close()
+		}
+	}
+	if res.conn != nil {
+		res.conn.Close()
+	}
+	w.Quiesce()
+	w.Take()
+	r.FP("custom-config", extras, tail)
 }
 
 // c16Adversary: a registered key holder sends client state that is unsigned or carries a forged signature.
